@@ -218,7 +218,14 @@ func c09(r *Run) {
 				}
 			}
 			r.mustPass("C09.R4:connect-task:help-after-reread"+key, "when that re-read finds the connection closed the task calls onDisconnect() (CAS-protected, so at most one of poller and task delivers it)", ro.task, u, starts,
-				func(x ssa.Instruction) bool { return isCall(x, ro.onDisconnectM) }, nil, nil, "onDisconnect() on every path from the closed edge")
+				func(x ssa.Instruction) bool {
+					// either through onDisconnect() or by competing for the connected->disconnected CAS directly
+					if isCall(x, ro.onDisconnectM) {
+						return true
+					}
+					c, ok := x.(*ssa.Call)
+					return ok && isCallOf(chg, stConn, stDis)(c)
+				}, nil, nil, "onDisconnect() (or the connected->disconnected CAS) on every path from the closed edge")
 		}
 		// the lock is released on every path after OnConnect ran
 		for _, site := range findIns(ro.task, func(i ssa.Instruction) bool { return userCallbackKind(i) == "OnConnect" }) {
